@@ -374,11 +374,18 @@ func (n *L1) Finalize(t time.Time, txs [][]byte, stub []StubOp) (*abci.ResponseF
 // machinery (ProcessProposal), that execution is aborted and discarded, and the block is
 // executed again by FinalizeBlock -- all inside one process, so only state that is not
 // part of the discarded cache (keeper memory) can leak from the first execution.
-func (n *L1) FinalizeAfterAbortedOE(t time.Time, txs [][]byte, stub []StubOp) (*abci.ResponseFinalizeBlock, error) {
+//
+// alt, when non-nil, is the transaction list of the aborted proposal (a different
+// proposal for the same height, as happens when a round fails); nil means the same list.
+func (n *L1) FinalizeAfterAbortedOE(t time.Time, txs [][]byte, stub []StubOp, alt [][]byte) (*abci.ResponseFinalizeBlock, error) {
 	n.pendingStub = stub
 	h := n.nextHeight()
 	start := atomic.LoadInt64(&n.blocksEnded)
-	if _, err := n.App.ProcessProposal(&abci.RequestProcessProposal{Height: h, Time: t, Txs: txs, Hash: []byte("proposal-A")}); err != nil {
+	first := txs
+	if alt != nil {
+		first = alt
+	}
+	if _, err := n.App.ProcessProposal(&abci.RequestProcessProposal{Height: h, Time: t, Txs: first, Hash: []byte("proposal-A")}); err != nil {
 		return nil, err
 	}
 	for i := 0; i < 50_000_000 && atomic.LoadInt64(&n.blocksEnded) == start; i++ {
@@ -390,6 +397,22 @@ func (n *L1) FinalizeAfterAbortedOE(t time.Time, txs [][]byte, stub []StubOp) (*
 		n.lastTime = t
 	}
 	return res, err
+}
+
+// SideSimulate / SideCheckTx are client traffic a real node serves between the
+// consensus calls: a gas simulation (ante + messages) or a mempool check (ante only)
+// on a branch of the node's check state that is thrown away.  The fault bookkeeping of
+// the block in progress is left untouched.
+func (n *L1) SideSimulate(tx []byte) {
+	saved := *n.Fault
+	defer func() { _ = recover(); *n.Fault = saved }()
+	_, _, _ = n.App.Simulate(tx)
+}
+
+func (n *L1) SideCheckTx(tx []byte) {
+	saved := *n.Fault
+	defer func() { _ = recover(); *n.Fault = saved }()
+	_, _ = n.App.CheckTx(&abci.RequestCheckTx{Tx: tx, Type: abci.CheckTxType_New})
 }
 
 func (n *L1) Commit() {
